@@ -556,6 +556,8 @@ def run_check(prop_id, tier, seed):
             'environment_profiles': {'A (default)': sum(1 for c in cases if c.get('_env', 'A') == 'A'),
                                      'B (python -O, UserWarning/RuntimeWarning as errors, DEBUG logging on, DST time zone, C locale)': sum(1 for c in cases if c.get('_env') == 'B')},
             'thread_pass': bool(getattr(prop, 'THREADS', False)),
+            'codec_alias_spellings': bool(getattr(prop, 'CODEC_ALIASES', False)),
+            'call_variants (bytearray / memoryview messages, positional arguments, earlier failing calls)': bool(getattr(prop, 'CALL_VARIANTS', False)),
             'correspondence_disagreements': len(corr),
             'oracle_failures': len(oracle), 'known_findings_hit': known_hit,
             'exhaustive': bool(getattr(prop, 'EXHAUSTIVE', {}).get(tier, False)),
